@@ -125,7 +125,7 @@ def _main(a, pid, modname, tier, seed, env, scratch, t_start) -> int:
     with cf.ThreadPoolExecutor(max_workers=max(1, a.jobs)) as ex:
         futs = {}
         for it in order:
-            wall = it.budget() * 2.2 + 60
+            wall = it.budget() * 4 + 180
             futs[ex.submit(run_item, modname, it.name, scratch, wall, env)] = it
         for fut in cf.as_completed(futs):
             it = futs[fut]
